@@ -1,4 +1,5 @@
 import CssVerif.Model.Tok
+import CssVerif.Model.TokSpec
 /-!
 # Lemmas about the tokenizer model (`Model/Tok.lean`) — helpers for `Props/C05.lean`
 -/
@@ -54,12 +55,6 @@ theorem first_seq_some {a b : Re} {s : Cps} {l1 l2 : Nat} (h1 : a.first s = some
 
 theorem first_seq_none {a b : Re} {s : Cps} (h1 : a.ms s = []) : (Re.seq a b).first s = none := by
   simp [Re.first, Re.ms, h1]
-
-/-- number of leading code points satisfying `p`, at most `n` -/
-def runLen (p : Nat → Bool) : Cps → Nat → Nat
-  | _, 0 => 0
-  | [], _ + 1 => 0
-  | c :: t, n + 1 => if p c then 1 + runLen p t n else 0
 
 /-- a greedy bounded repeat of a one-code-point matcher returns the longest run first -/
 theorem head_repMs_cls (f : Cps → List Nat) (p : Nat → Bool) (hnil : f [] = [])
@@ -128,25 +123,6 @@ theorem loop_noFuel (full doC : Bool) (fuel : Nat) (s : Cps) (line col : Nat) (h
     omega
 
 /-! ## specification of escapes (independent of `Re`) -/
-
-def isWs (c : Nat) : Bool := c == 9 || c == 13 || c == 10 || c == 12 || c == 32
-
-/-- length of the optional terminator of a hex escape: CR LF counts as one -/
-def wsLen (s : Cps) : Nat :=
-  match s with
-  | [] => 0
-  | c :: t => if c = 13 ∧ t.head? = some 10 then 2 else if isWs c then 1 else 0
-
-/-- length of the unit `unicodesub` replaces at the start of `s`: an escaped backslash, or a backslash with
-1–6 hex digits and the optional terminator -/
-def escLen (s : Cps) : Option Nat :=
-  match s with
-  | [] => none
-  | c :: t =>
-    if c ≠ 92 then none
-    else if t.head? = some 92 then some 2
-    else if runLen isHex t 6 = 0 then none
-    else some (1 + runLen isHex t 6 + wsLen (t.drop (runLen isHex t 6)))
 
 theorem inCls_hex (c : Nat) : Re.inCls false [(48, 57), (97, 102), (65, 70)] c = isHex c := by
   simp only [Re.inCls, isHex, List.any_cons, List.any_nil, Bool.or_false]
@@ -291,10 +267,6 @@ theorem pyIntHex_append (a b : Cps) (ha : ∀ x ∈ a, isHex x = true) (hne : a 
   have : a.isEmpty = false := by cases a <;> simp_all
   simp [this, List.all_eq_true.mpr hb2]
 
-/-- what a hex escape denotes: `ds` its hex digits, `asWritten` its source text -/
-def decodeHex (ds asWritten : Cps) : Cps :=
-  if hexNum ds = 0x5C then [92, 92] else if hexNum ds ≤ 0x10FFFF then [hexNum ds] else asWritten
-
 theorem repl_hex (d : Nat) (u : Cps) (hd : d ≠ 92) (hh : isHex d = true) :
     repl (92 :: (d :: u).take (runLen isHex (d :: u) 6 + wsLen ((d :: u).drop (runLen isHex (d :: u) 6)))) =
       some (decodeHex ((d :: u).take (runLen isHex (d :: u) 6))
@@ -322,26 +294,6 @@ theorem repl_hex (d : Nat) (u : Cps) (hd : d ≠ 92) (hh : isHex d = true) :
   split
   · rename_i h; simp at h; simp [h]
   · rename_i h; simp at h; simp only [h, if_false]; split <;> rfl
-
-/-- **Independent escape decoder** (no regular expression): one left-to-right pass.
-`\\` is a unit and stays; `\` + 1–6 hex digits + optional terminator (one white-space code point, CR LF counting
-as one) is replaced by what it denotes; everything else is copied. The `Nat` is fuel (≥ length). -/
-def unescapeF : Nat → Cps → Cps
-  | 0, _ => []
-  | _ + 1, [] => []
-  | f + 1, c :: t =>
-    if c ≠ 92 then c :: unescapeF f t
-    else match t with
-      | [] => [92]
-      | d :: u =>
-        if d = 92 then 92 :: 92 :: unescapeF f u
-        else if isHex d then
-          decodeHex (t.take (runLen isHex t 6))
-              (92 :: t.take (runLen isHex t 6 + wsLen (t.drop (runLen isHex t 6))))
-            ++ unescapeF f (t.drop (runLen isHex t 6 + wsLen (t.drop (runLen isHex t 6))))
-        else 92 :: unescapeF f t
-
-def unescape (s : Cps) : Cps := unescapeF s.length s
 
 theorem subGo_skip (r : Re) (f : Cps → Option Cps) : ∀ (s : Cps) (k : Nat),
     subGo r f s k = subGo r f (s.drop k) 0 := by
@@ -390,29 +342,6 @@ theorem subU_unescapeF : ∀ (fuel : Nat) (s : Cps), s.length ≤ fuel → subGo
       · simp [escLen, hc, ih t ht]
 
 theorem subU_eq_unescape (s : Cps) : subU s = some (unescape s) := subU_unescapeF s.length s (Nat.le_refl _)
-
-def isNl (c : Nat) : Bool := c == 10 || c == 13 || c == 12
-
-/-- length of a line continuation (backslash + newline; CR LF is one newline) at the start of `s` -/
-def contLen (s : Cps) : Option Nat :=
-  match s with
-  | [] => none
-  | c :: t =>
-    if c ≠ 92 then none
-    else match t with
-      | [] => none
-      | d :: u => if d = 13 ∧ u.head? = some 10 then some 3 else if isNl d then some 2 else none
-
-/-- **Independent continuation remover**: one pass, drops backslash-newline -/
-def stripContF : Nat → Cps → Cps
-  | 0, _ => []
-  | _ + 1, [] => []
-  | f + 1, c :: t =>
-    match contLen (c :: t) with
-    | some l => stripContF f ((c :: t).drop l)
-    | none => c :: stripContF f t
-
-def stripCont (s : Cps) : Cps := stripContF s.length s
 
 theorem first_cleanstring (s : Cps) : cleanstringRe.first s = contLen s := by
   unfold cleanstringRe
@@ -780,10 +709,6 @@ theorem loop_done (full doC : Bool) (fuel : Nat) (s : Cps) (line col : Nat) (h :
     simp only [List.length_drop, List.length_cons] at *
     omega
 
-/-- line and column of the code point that follows the text `pre`: lines are counted by line feeds,
-the column is 1 + the distance to the previous line feed -/
-def lc (pre : Cps) : Nat × Nat := (1 + pre.count 10, 1 + (pre.reverse.takeWhile (· != 10)).length)
-
 theorem takeWhile_append_of_mem (p : Nat → Bool) (a b : Cps) (h : ∃ x ∈ a, p x = false) :
     (a ++ b).takeWhile p = a.takeWhile p := by
   induction a with
@@ -961,12 +886,6 @@ theorem loop_pos (full doC : Bool) (fuel : Nat) (s : Cps) (line col : Nat) :
         List.drop_eq_nil_iff.mpr (by rw [hk]; simp)
       rw [this, loop_nil_items]
       trivial
-
-/-- value of a token of type `typ` whose text (with completion) is `found` -/
-def tokenValue (typ : String) (found : Cps) : Cps :=
-  if unescTypes.contains typ then
-    (if cleanTypes.contains typ then stripCont (unescape found) else unescape found)
-  else found
 
 /-- every token type the tokenizer can produce -/
 def knownTypes : List String :=
@@ -1277,28 +1196,5 @@ theorem stripContF_fuel (f : Nat) (s : Cps) (h : s.length ≤ f) : stripContF f 
   exact Option.some.inj h2
 
 /-! ## one-pass value of a string token (the full-strength reading of T5.4 for STRING / INVALID) -/
-
-/-- **Independent one-pass decoder for string tokens**: an escaped backslash stays, backslash-newline is dropped,
-a hex escape is decoded — all decided on the SOURCE text, left to right. (The code decodes hex escapes first and
-then removes backslash-newline from the DECODED text; the two differ exactly in the region of known finding
-`C05-clean-decoded-newline`.) -/
-def stringValueF : Nat → Cps → Cps
-  | 0, _ => []
-  | _ + 1, [] => []
-  | f + 1, c :: t =>
-    if c ≠ 92 then c :: stringValueF f t
-    else match t with
-      | [] => [92]
-      | d :: u =>
-        if d = 92 then 92 :: 92 :: stringValueF f u
-        else if d = 13 ∧ u.head? = some 10 then stringValueF f (u.drop 1)
-        else if isNl d then stringValueF f u
-        else if isHex d then
-          decodeHex (t.take (runLen isHex t 6))
-              (92 :: t.take (runLen isHex t 6 + wsLen (t.drop (runLen isHex t 6))))
-            ++ stringValueF f (t.drop (runLen isHex t 6 + wsLen (t.drop (runLen isHex t 6))))
-        else 92 :: stringValueF f t
-
-def stringValue (s : Cps) : Cps := stringValueF s.length s
 
 end CssVerif.Tok
